@@ -46,6 +46,11 @@ def run(res, tier, replay):
                 la = bytearray(gen.cab_single(rng, nfolders=1, methods=[("none",)]).files["in0.cab"])
                 fo_ = _s14.unpack_from("<I", la, 16)[0]; _s14.pack_into("<H", la, fo_ + 8, rng.choice([7, 1, 0x7FFF])); _s14.pack_into("<I", la, 8, rng.choice([100000, len(la) + 500, 0x7FFFFFFF]))
                 data += la + filler(rng, rng.choice([0, 3, 30]))
+            if i % 8 == 6 and j == 0:
+                # a header-shaped run of bytes in front that passes the plausibility filter and claims 65535 folders: reading its folder
+                # table runs into the end of the file - one more candidate that is not a cabinet, the real ones behind it are still found
+                import struct as _s14
+                data += _s14.pack("<4sIIIIIBBHHHHH", b"MSCF", 0, 100, 0, 40, 0, 3, 1, 65535, 1, 0, 0x1234, 0) + bytes([7, 7, 7][:i // 8 % 4])
             if i % 8 == 1:
                 # the smallest well-formed cabinets: one folder without data blocks, only empty members with one-letter names (62 bytes and up);
                 # the whole searched file stays below 71 bytes
